@@ -36,7 +36,7 @@ SPEC = {
         "C11_skeleton_OrderedMap_Has", "C11_skeleton_OrderedMap_Clear", "C11_skeleton_OrderedMap_ForEach",
         "C11_skeleton_OrderedMap_ForEachReverse", "C11_skeleton_OrderedMap_Head", "C11_skeleton_OrderedMap_Tail",
         "C11_skeleton_OrderedMap_Size", "C11_skeleton_OrderedMap_IsEmpty", "C11_skeleton_OrderedMap_Clone",
-        "C11_clone_reentrant_deadlock_witness",
+        "C11_clone_reentrant_deadlock_witness", "C11_source_applymutex_deadlock_witness",
     ],
     "trusted_base": [
         "hand-written models Hive/Model/OMap.lean (abstract ordered map, ds.Set, SetMutations, SetArithmetic, byte format), "
